@@ -63,6 +63,71 @@ def holds(st, key, inv, an):
     return True, ""
 
 
+def private_helpers(prog, ms):
+    """{helper path: [(caller body, bb, call term)]}: crate-internal (not `pub`) inherent methods of the struct every use of which is a direct call from a
+    method of the same struct (not from a closure, not mentioned as a value).  Such a method is not an entry point: what holds at its
+    entry is what holds at its call sites, which need not be the whole invariant (a block split off the middle of a method)."""
+    mpaths = {b.path: b for b in ms}
+    cg = prog.callgraph()
+    out = {}
+    for h in ms:
+        if h.impl_trait or not str(h.j.get("vis") or "").startswith("Restricted") or self_key(h) != "(*_1)":
+            continue
+        sites = []
+        ok = True
+        callers = set(cg.callers(h.path))
+        if not callers:
+            continue
+        for c in callers:
+            cb = mpaths.get(c)
+            if cb is None or cb is h or self_key(cb) != "(*_1)":
+                ok = False
+                break
+            cs = [(cb, bb, t) for bb, t in cb.calls() if callee_name(t) == h.path and t["args"]]
+            if not cs:
+                ok = False              # referenced otherwise than by a direct call
+                break
+            sites += cs
+        if ok and sites:
+            out[h.path] = sites
+    return out
+
+
+def call_site_entry(helper, sites, inv, analyses):
+    """entry facts of a private helper: per invariant field the join of its interval over the call sites (receiver = the caller's own
+    self), a difference bound only when it is provable at every site.  None if a site is not understood."""
+    k = "(*_1)"
+    fields, diffs, n = {}, {d: True for d in inv.get("diffs", [])}, 0
+    for cb, bb, t in sites:
+        an = analyses[cb.path]
+        st = an.call_args.get(bb)
+        if st is None:
+            continue                    # unreachable call site
+        a0 = an.eval_op(st.copy(), t["args"][0], "q")
+        if a0.ref_to != k:
+            return None
+        n += 1
+        for f in inv.get("fields", {}):
+            v = st.vals.get("%s.%s" % (k, f))
+            it = st.itv(v) if v is not None else (-INF, INF)
+            cur = fields.get(f)
+            fields[f] = it if cur is None else (min(cur[0], it[0]), max(cur[1], it[1]))
+        for (a, b, d) in list(diffs):
+            va, vb = st.vals.get("%s.%s" % (k, a)), st.vals.get("%s.%s" % (k, b))
+            ta, tb = (st.term(va) if va else None), (st.term(vb) if vb else None)
+            if ta is None or tb is None:
+                diffs[(a, b, d)] = False
+                continue
+            tb2 = ("c", tb[1] + d) if tb[0] == "c" else ("s", tb[1], tb[2] + d)
+            if not st.le(ta, tb2):
+                diffs[(a, b, d)] = False
+    if n == 0 or any(it[0] == -INF or it[1] == INF for it in fields.values()):
+        return None
+    return {"fields": {"%s.%s" % (k, f): it for f, it in fields.items()},
+            "field_diffs": [("%s.%s" % (k, a), "%s.%s" % (k, b), d) for (a, b, d), okd in diffs.items() if okd]}
+
+
+
 def establish(ctx, rule, struct, inv, check_err_exits=False):
     """returns (established: bool, entry_facts: {body path: entry})"""
     prog = ctx.prog
@@ -119,13 +184,36 @@ def establish(ctx, rule, struct, inv, check_err_exits=False):
         ctx.anchor(rule, struct + "/literal")
         ok_all = False
     # 3. methods preserve it
-    for b in ms:
+    # A private helper (every use a direct call from a sibling method) assumes what holds at its call sites instead of the invariant and
+    # still has to establish the invariant where it returns successfully; callers are analysed before the helpers they call.
+    helpers = private_helpers(prog, ms)
+    order = [b for b in ms if b.path not in helpers]
+    pending = [b for b in ms if b.path in helpers]
+    while pending:
+        ready = [h for h in pending if all(cb.path not in helpers or cb in order for cb, _, _ in helpers[h.path])]
+        if not ready:                   # helpers calling each other in a cycle: treated as ordinary methods
+            for h in pending:
+                helpers.pop(h.path, None)
+            order += pending
+            break
+        order += ready
+        pending = [h for h in pending if h not in ready]
+    analyses = {}
+    for b in order:
         k = self_key(b)
         if k is None:
             continue
         e = entry_for(b, inv)
+        if b.path in helpers:
+            ce_ = call_site_entry(b, helpers[b.path], inv, analyses) if all(cb.path in analyses for cb, _, _ in helpers[b.path]) else None
+            if ce_ is None:
+                helpers.pop(b.path)
+            else:
+                e = ce_
+                ctx.instance(rule, {"fn": b.path, "private_helper_entry": {f: list(it) for f, it in e["fields"].items()}, "call_sites": len(helpers[b.path])})
         entries[b.path] = e
         an = eng.analyze(b.path, e)
+        analyses[b.path] = an
         mutable = b.local_ty(1).startswith("&mut") or b.local_ty(1).startswith("&'") and " mut " in b.local_ty(1)[:12]
         # calls handing self to sibling methods
         for bb, t in b.calls():
@@ -138,6 +226,8 @@ def establish(ctx, rule, struct, inv, check_err_exits=False):
             a0 = an.eval_op(st.copy(), t["args"][0], "q")
             if a0.ref_to != k and not (a0.ref_to or "").startswith(k):
                 continue
+            if cal.path in helpers and a0.ref_to == k:
+                continue                # its entry is the join of its call sites (below), not the invariant
             ok, why = holds(st, k, inv, an)
             ctx.instance(rule, {"fn": b.path, "at_call": cal.path, "line": t["line"], "holds": ok, "why": why})
             if not ok:
